@@ -75,10 +75,10 @@ Proof.
       pose proof (IH _ _ _ _ _ _ Nr Nd E2) as L. inversion H; subst; assumption.
 Qed.
 
-Lemma step_net a s o : idx_inv s -> nn s ->
+Lemma step_net a s o : idx_inv s -> nn s -> wf_op o = true ->
   net a (glog (fst (step s o))) <= net a (glog s) \/ is_deposit_of a o = true.
 Proof.
-  intros I N. destruct o; simpl.
+  intros I N Wf. destruct o; simpl.
   - (* Deposit *) destruct (String.eqb a asset) eqn:Ea; [right; reflexivity|left].
     destruct (deposit s staker asset x) as [s'|] eqn:E; simpl; [|lia].
     unfold deposit in E. dmatch E. inversion E; subst; clear E. simpl.
@@ -102,7 +102,6 @@ Proof.
     apply upd_sa_log in E1. apply upd_oa_log in E2. apply upd_dg_log in E3.
     unfold append_staker. destruct (mem staker _); simpl; rewrite E3, E2, E1; lia.
   - left. destruct (undelegate s staker asset operator x nonce tx) as [[s' r]|] eqn:E; simpl; [|lia].
-    destruct (hook_panics s operator); simpl; [lia|].
     unfold undelegate in E.
     destruct (x <=? 0); [discriminate|]. destruct (negb (mem operator (operators s))); [discriminate|].
     destruct (sget (dg s) (dg_key staker asset operator)) as [d|] eqn:Ed; [|discriminate].
@@ -152,11 +151,11 @@ Proof.
     pose proof N as (A & B & C & D & E0 & F).
     unfold slash in E. destruct ((p <? 0) || (p >? P)) eqn:Ep; [discriminate|].
     apply orb_false_elim in Ep. destruct Ep as [Ep1 Ep2]. apply Z.ltb_ge in Ep1. rewrite Z.gtb_ltb in Ep2. apply Z.ltb_ge in Ep2.
-    destruct (if eh <? height s then slash_records operator eh p (ur s) else (ur s, [])) as [u' ev1] eqn:E1.
+    destruct (if eh <=? height s then slash_records operator eh p (ur s) else (ur s, [])) as [u' ev1] eqn:E1.
     destruct (slash_pools operator p (oa s) (dg s) (sl s)) as [[[o' d'] l'] ev2] eqn:E2.
     inversion E; subst; clear E. simpl. rewrite !net_app_nn.
     assert (net a ev1 <= 0).
-    { destruct (eh <? height s); [eapply slash_records_net; eauto | inversion E1; subst; unfold net; simpl; lia]. }
+    { destruct (eh <=? height s); [eapply slash_records_net; eauto | inversion E1; subst; unfold net; simpl; lia]. }
     pose proof (slash_pools_net a _ _ _ _ _ _ _ _ _ (conj Ep1 Ep2) B D E2). lia.
   - left. unfold hold_inc. destruct (_ =? _); simpl; lia.
   - left. unfold hold_dec. destruct (_ =? _); simpl; lia.
@@ -165,6 +164,7 @@ Proof.
                 (fun s0 r _ G Q0 => process_net a _ s0 r Q0 G)
                 (fun s0 h Q0 => conj (w_height_nn h s0 (proj1 Q0)) (proj2 Q0)) s I (conj N (Z.le_refl _))) as (_ & Q & _).
     exact (proj2 Q).
+  - discriminate.
 Qed.
 
 
@@ -172,7 +172,7 @@ Lemma only_deposit_step : forall s o a, idx_inv s -> nn s -> wf_op o = true ->
   value a (fst (step s o)) <= value a s \/ is_deposit_of a o = true.
 Proof.
   intros s o a I N Wf. destruct (step_cons a s o I Wf) as [C _]. unfold cons in C.
-  destruct (step_net a s o I N) as [L|D]; [left; lia | right; exact D].
+  destruct (step_net a s o I N Wf) as [L|D]; [left; lia | right; exact D].
 Qed.
 
 Lemma reachable_invariants : forall ops s0, idx_inv s0 -> nn s0 -> hist_ok s0 ops = true ->
